@@ -544,6 +544,12 @@ func (fr *Frame) exec(in ssa.Instruction) {
 			rs[i] = fr.val(r)
 		}
 		fr.rets = append(fr.rets, Exit{reach: fr.cur, st: fr.st.clone(), results: rs})
+		if fr.top {
+			ex.retCount++
+			if co := ex.addOblig("cover", fmt.Sprintf("return-%d", ex.retCount), ex.prog.pos(in.Pos()), mkNot(fr.cur), "this return statement is reachable"); co != nil {
+				co.ExpectSat = true
+			}
+		}
 	case *ssa.Panic:
 		fr.panics = append(fr.panics, Exit{reach: fr.cur, st: fr.st.clone()})
 		fr.cur = "false"
